@@ -80,6 +80,23 @@ Sites == <<
     "sig.alg.0.hash+sig.alg.0.sign"),
   S("signature_pair_in_key_exchange", "parse_content_and_signature", [NoArgs EXCEPT !.sub = "ecdh", !.ext = 1], <<3, 0, 23, 1, 4>>, 2, <<0, 1, 9>>,
     "sig.alg.0.hash+sig.alg.0.sign"),
+  (* alert fields through the stateful parser, several alerts in one record *)
+  S("alert_level_stateful_two_alerts", "fresh_parse_record", NoArgs, <<21, 3, 3, 0, 4>>, 1, <<0, 2, 40>>, "0.sev"),
+  S("alert_level_stateful_second_alert", "fresh_parse_record", NoArgs, <<21, 3, 1, 0, 6, 1, 0>>, 1, <<90, 2, 40>>, "1.sev"),
+  S("alert_description_stateful", "fresh_parse_record", NoArgs, <<21, 3, 3, 0, 4, 7>>, 1, <<1, 0>>, "0.code"),
+  S("heartbeat_type_stateful", "fresh_parse_record", NoArgs, <<24, 3, 3, 0, 4>>, 1, <<0, 1, 7>>, "0.hbt"),
+  (* the typed contents through the ClientHello / ServerHello dispatchers too *)
+  S("status_type_server", "parse_tls_server_hello_extension", NoArgs, <<0, 5, 0, 5>>, 1, <<0, 0, 0, 0>>, "req.0.st"),
+  S("status_type_client", "parse_tls_client_hello_extension", NoArgs, <<0, 5, 0, 5>>, 1, <<0, 0, 0, 0>>, "req.0.st"),
+  S("sni_name_type_client", "parse_tls_client_hello_extension", NoArgs, <<0, 0, 0, 6, 0, 4>>, 1, <<0, 1, 97>>, "names.0.nt"),
+  S("named_group_client", "parse_tls_client_hello_extension", NoArgs, <<0, 10, 0, 6, 0, 4, 0, 23>>, 2, <<>>, "groups.1"),
+  S("signature_scheme_client", "parse_tls_client_hello_extension", NoArgs, <<0, 13, 0, 4, 0, 2>>, 2, <<>>, "algs.0"),
+  S("psk_mode_client", "parse_tls_client_hello_extension", NoArgs, <<0, 45, 0, 3, 2, 1>>, 1, <<>>, "modes.1"),
+  S("supported_version_client", "parse_tls_client_hello_extension", NoArgs, <<0, 43, 0, 5, 4, 3, 4>>, 2, <<>>, "vers.1"),
+  S("selected_version_server", "parse_tls_server_hello_extension", NoArgs, <<0, 43, 0, 2>>, 2, <<>>, "vers.0"),
+  S("max_fragment_length_server", "parse_tls_server_hello_extension", NoArgs, <<0, 1, 0, 1>>, 1, <<>>, "v"),
+  S("heartbeat_mode_client", "parse_tls_client_hello_extension", NoArgs, <<0, 15, 0, 1>>, 1, <<>>, "v"),
+  S("heartbeat_mode_server", "parse_tls_server_hello_extension", NoArgs, <<0, 15, 0, 1>>, 1, <<>>, "v"),
   (* the content type of a raw / encrypted record of the maximum length *)
   S("record_type_encrypted_len_16640", "parse_tls_encrypted", NoArgs, <<>>, 1, <<3, 3, 65, 0>> \o Fill(7, 16640), "hdr.ct"),
   S("record_type_raw_len_16640", "parse_tls_raw_record", NoArgs, <<>>, 1, <<3, 4, 65, 0>> \o Fill(8, 16640) \o <<22, 3>>, "hdr.ct"),
@@ -125,6 +142,13 @@ Acc(site, v) ==
     [] site = "client_hello_cipher_after_tls13_cipher" -> v.m.ciphers[2]
     [] site = "dtls_server_hello_compression_tls13_cipher" -> v.body.comp
     [] site = "alert_level" -> v.sev [] site = "alert_description" -> v.code
+    [] site = "alert_level_stateful_two_alerts" -> v[1].sev [] site = "alert_level_stateful_second_alert" -> v[2].sev
+    [] site = "alert_description_stateful" -> v[1].code [] site = "heartbeat_type_stateful" -> v[1].hbt
+    [] site \in {"status_type_server", "status_type_client"} -> v.req[1].st
+    [] site = "sni_name_type_client" -> v.names[1].nt [] site = "named_group_client" -> v.groups[2]
+    [] site = "signature_scheme_client" -> v.algs[1] [] site = "psk_mode_client" -> v.modes[2]
+    [] site = "supported_version_client" -> v.vers[2] [] site = "selected_version_server" -> v.vers[1]
+    [] site \in {"max_fragment_length_server", "heartbeat_mode_client", "heartbeat_mode_server"} -> v.v
     [] site = "alert_level_in_record" -> v.msg[1].sev [] site = "alert_description_in_record" -> v.msg[2].code
     [] site = "heartbeat_type" -> v.msg[1].hbt
     [] site = "extension_type_unknown_parser" -> v.ty
